@@ -19,6 +19,7 @@ from pyfront import canon, CFG, guard_literals, enclosing_func
 HIER = {
     "UnicodeDecodeError": ["UnicodeDecodeError", "UnicodeError", "ValueError", "Exception", "BaseException"],
     "ValueError": ["ValueError", "Exception", "BaseException"],
+    "UnicodeEncodeError": ["UnicodeEncodeError", "UnicodeError", "ValueError", "Exception", "BaseException"],
     "IndexError": ["IndexError", "LookupError", "Exception", "BaseException"],
     "KeyError": ["KeyError", "LookupError", "Exception", "BaseException"],
     "TypeError": ["TypeError", "Exception", "BaseException"],
@@ -704,6 +705,17 @@ class Escape:
         if isinstance(f, ast.Attribute) and f.attr == "decode" and self.expr_kind(f.value, taint, ci, mod) == "raw":
             self.site("decode", "UnicodeDecodeError", n, mod, ci, fd, "%s of received octets" % canon(n), stack, chain)
             return
+        if isinstance(f, ast.Attribute) and f.attr == "encode" and (n.args or n.keywords):
+            # str.encode(codec): total for the Unicode transformation formats (text decoded from received octets holds
+            # no lone surrogates), partial for every narrower codec unless an error handler other than 'strict' is given
+            enc = n.args[0] if n.args else next((k.value for k in n.keywords if k.arg == "encoding"), None)
+            err = n.args[1] if len(n.args) > 1 else next((k.value for k in n.keywords if k.arg == "errors"), None)
+            wide = isinstance(enc, ast.Constant) and isinstance(enc.value, str) and \
+                enc.value.lower().replace("_", "-") in ("utf-8", "utf8", "utf-16", "utf-32", "utf16", "utf32", "utf-16-le", "utf-16-be", "utf-32-le", "utf-32-be")
+            lenient = isinstance(err, ast.Constant) and err.value in ("replace", "ignore", "backslashreplace", "xmlcharrefreplace", "namereplace", "surrogateescape", "surrogatepass")
+            if enc is not None and not wide and not lenient and self.expr_tainted(f.value, taint, ci, mod):
+                self.site("encode", "UnicodeEncodeError", n, mod, ci, fd, "%s of text that carries received characters" % canon(n), stack, chain)
+                return
         if fname in ("int", "float") and "raw" in kinds:
             self.site("int", "ValueError", n, mod, ci, fd, "%s of received text" % canon(n), stack, chain)
             return
